@@ -57,10 +57,19 @@ func c04prop(ev *evid.Rec) func(rt *rapid.T) {
 		withGuest := rapid.Bool().Draw(rt, "withGuest")
 		accounts := []hlsim.AccountSpec{acct("obs", "Observer", "obspw", allAccess)}
 		pw := map[string]string{}
+		broken := map[string]bool{}
 		for _, l := range logins {
 			p := rapid.SampledFrom(c04Passwords).Draw(rt, "pw_"+l)
 			pw[l] = p
-			accounts = append(accounts, acct(l, "N-"+l, p, allAccess))
+			a := acct(l, "N-"+l, p, allAccess)
+			// some account files do not hold a usable salted hash (empty - what mobius itself stores for a password longer
+			// than 72 bytes -, plain text, truncated): such an account has no password that could be presented
+			if rapid.IntRange(0, 4).Draw(rt, "broken_"+l) == 0 {
+				raw := rapid.SampledFrom([]string{"", "x", p, "$2a$04$short", "not-a-hash"}).Draw(rt, "raw_"+l)
+				a.RawPassword = &raw
+				broken[l] = true
+			}
+			accounts = append(accounts, a)
 		}
 		if withGuest {
 			p := rapid.SampledFrom([]string{"", "", "gpw"}).Draw(rt, "pw_guest")
@@ -135,6 +144,9 @@ func c04prop(ev *evid.Rec) func(rt *rapid.T) {
 		credsOK := exists && bytes.Equal(wirePw, hlref.Obfuscate([]byte(truePw)))
 		if wirePw == nil {
 			credsOK = exists && truePw == ""
+		}
+		if broken[effLogin] {
+			credsOK = false
 		}
 		tranType := hlref.TranLogin
 		if rapid.IntRange(0, 5).Draw(rt, "oddtype") == 0 {
@@ -285,7 +297,10 @@ func c04prop(ev *evid.Rec) func(rt *rapid.T) {
 		if wantLoggedIn {
 			lab = "accepted"
 		}
-		ev.Case(evid.Hash(hs, first, fmt.Sprint(appKinds), banKind, fmt.Sprint(logins), withGuest), nt, lab, "hs:"+hsKind, "pw:"+pwKind, "ban:"+banKind)
+		if broken[effLogin] {
+			ev.Label("login names an account with an unusable stored hash", 1)
+		}
+		ev.Case(evid.Hash(hs, first, fmt.Sprint(appKinds), banKind, fmt.Sprint(logins), withGuest, fmt.Sprint(broken)), nt, lab, "hs:"+hsKind, "pw:"+pwKind, "ban:"+banKind)
 		if nt && ev.WantSample() {
 			ev.Sample(map[string]any{"accounts": logins, "guest": withGuest, "handshake": hsKind, "login": login, "password_variant": pwKind,
 				"first_type": tranType, "appended": appKinds, "same_write": sameWrite, "ban": banKind, "expected": lab})
